@@ -41,6 +41,14 @@ CHECKS = {
             "QUERY/REPLAY FOR ctx must return exactly the context's events and the unscoped QUERY exactly the union.",
             "shard tag decoded from event_id bits 12..21; crash restarts are excluded here (loss after crash is C01's subject)",
             "DESIGN.md §4 C12"),
+    "C09": ("exploration",
+            "runtime monitoring: relational oracle (python fold over the engine's own selection on the same state) per storage tier",
+            "Aggregate queries (1-3 metrics, BY 0-2 fields, PER bucket on a payload time field, FOR/WHERE scopes, LIMIT) over generated "
+            "event multisets are compared, in memory / mixed / L0 / compacted / restart layouts, with a fold over the rows the same "
+            "query without aggregation returns back to back: group keys, group count and every metric value.",
+            "relational: selection defects do not leak in; metrics over empty inputs and the label of a null group are unspecified; "
+            "known findings match on the first feature family of the failing table cell",
+            "DESIGN.md §4 C09"),
 }
 
 PENDING_REASON = "check not built yet in this session (see DESIGN.md §10 for the order); no claim is made"
